@@ -136,7 +136,9 @@ def _inline_helper_call(call, func, depth):
         g = MODEL.resolve_call(call, func)
     except Exception:
         return None
-    if g is None or not hasattr(g, "node") or not isinstance(g.node, (ast.FunctionDef,)) or g.node is func.node or g.node.decorator_list:
+    if g is None or not hasattr(g, "node") or not isinstance(g.node, (ast.FunctionDef,)) or g.node is func.node:
+        return None
+    if any(not (isinstance(d, ast.Name) and d.id in ("staticmethod", "classmethod")) for d in g.node.decorator_list):
         return None
     body = [s_ for s_ in g.node.body if not (isinstance(s_, ast.Expr) and isinstance(s_.value, ast.Constant))]
     if len(body) != 1 or not isinstance(body[0], ast.Return) or body[0].value is None:
@@ -203,7 +205,17 @@ def expand(fnode, expr, max_depth=8, helpers=False):
             if stores.get(t) == 1 and t not in params:
                 single[t] = n.value
 
-    func = getattr(MODEL, "_func_of_node", {}).get(id(fnode)) if MODEL is not None else None
+    func = None
+    if MODEL is not None:
+        # a nested function resolves calls as its enclosing method does (self, module globals are the closure's)
+        cur = fnode
+        reg = getattr(MODEL, "_func_of_node", {})
+        while cur is not None and func is None:
+            if isinstance(cur, ast.FunctionDef):
+                func = reg.get(id(cur))
+                if func is None and "self" in {a.arg for a in cur.args.args} and cur is not fnode:
+                    break
+            cur = getattr(cur, "_parent", None)
 
     class Sub(ast.NodeTransformer):
         def __init__(self, depth, seen):
